@@ -60,7 +60,7 @@ class UARTDataWord(object):
             ch_spec_word = self.ipts.pack()
         data_len = len(self.payload)
         if self.parity_error:
-            _subch = self.subchannel + 0x80
+            _subch = self.subchannel + 0x8000
         else:
             _subch = self.subchannel
         intra_pkt_header = struct.pack("<HH", data_len, _subch)
